@@ -26,6 +26,36 @@ def execute(binp, cases, sd, name, timeout=900, extra_args=()):
     return tp
 
 
+def execute_chunked(binp, cases, sd, name, chunk, timeout=900, extra_args=(), par=2):
+    """execute() in several processes of `chunk` cases each (harnesses whose objects under test leak goroutines keep
+    their memory bounded that way); traces are concatenated, the numeric fields of the .ok files summed."""
+    from concurrent.futures import ThreadPoolExecutor
+    parts = [cases[i:i + chunk] for i in range(0, len(cases), chunk)] or [[]]
+
+    def one(k):
+        return execute(binp, parts[k], sd, "%s.%d" % (name, k), timeout=timeout, extra_args=extra_args)
+    with ThreadPoolExecutor(max_workers=par) as ex:
+        tps = list(ex.map(one, range(len(parts))))
+    tp = os.path.join(sd, name + ".trace.ndjson")
+    tot = {}
+    with open(tp, "w") as fo:
+        for t in tps:
+            with open(t) as fi:
+                for line in fi:
+                    fo.write(line)
+            try:
+                st = json.load(open(t + ".ok"))
+                for k, v in st.items():
+                    if isinstance(v, (int, float)):
+                        tot[k] = tot.get(k, 0) + v
+            except Exception:
+                pass
+            os.remove(t)
+    with open(tp + ".ok", "w") as fh:
+        json.dump(tot, fh)
+    return tp
+
+
 def judge(chk, module, cfg, tp, sig_of, name, timeout=900, env=None, parts=1):
     if parts > 1:
         viols, r = vlib.observe_parallel(module, cfg, tp, parts=parts, timeout=timeout, env=env)
